@@ -121,7 +121,7 @@ func c17WriteModule(root string, dirs []string) *c17Module {
 			pkg = "lay"
 		}
 		pkg = strings.Map(func(r rune) rune {
-			if r == '-' || r == '.' {
+			if r == '-' || r == '.' || r == '+' {
 				return '_'
 			}
 			return r
@@ -135,6 +135,8 @@ func c17WriteModule(root string, dirs []string) *c17Module {
 	}
 	return m
 }
+
+func g17pick(r interface{ Intn(int) int }, xs ...string) string { return xs[r.Intn(len(xs))] }
 
 func checkC17(cfg *core.Config) int {
 	rep := core.NewReport(cfg)
@@ -161,8 +163,10 @@ func checkC17(cfg *core.Config) int {
 		root := filepath.Join(scratch, fmt.Sprintf("m%03d", i), "src")
 		fam := nameFamilies[rng.Intn(len(nameFamilies))]
 		var dirs []string
-		shape := i % 7
+		shape := i % 8
 		switch shape {
+		case 7: // a package, a package nested in it, and a sibling spelled <name>-v2 ('-' sorts before '/')
+			dirs = []string{fam[0], fam[0] + "/client", fam[0] + g17pick(rng, "-v2", ".old", "+x")}
 		case 6: // a nested package listed before a sibling whose name extends the name of its parent
 			parent, longer := fam[0], fam[0]+"ping"
 			for _, x := range fam {
@@ -256,6 +260,10 @@ func checkC17(cfg *core.Config) int {
 			txt := filepath.Join(root, dirs[0], "notes.txt")
 			os.WriteFile(txt, []byte("hello"), 0o644)
 			addCase("err-non-go-file", scratch, []string{txt}, true)
+			// ... also when a Go file of the same directory is requested with it, in both orders
+			sib := filepath.Join(root, dirs[0], "models.go")
+			addCase("err-non-go-file-with-sibling-go-file", scratch, []string{sib, txt}, true)
+			addCase("err-non-go-file-before-sibling-go-file", scratch, []string{txt, sib}, true)
 		case 2:
 			bad := filepath.Join(root, "broken")
 			os.MkdirAll(bad, 0o755)
@@ -277,6 +285,8 @@ func checkC17(cfg *core.Config) int {
 			addCase("err-syntax-error", scratch, append([]string{filepath.Join(bad, "bad.go")}, abs(pick(1))...), true)
 		}
 	}
+
+	addCase("err-no-file-at-all", scratch, []string{}, true)
 
 	// run in worker processes (each serial because of chdir), 16 at a time
 	self, _ := os.Executable()
